@@ -9,7 +9,8 @@ ID = "C18"
 RULE = ("Voronoi / arc tissues (8..60 cells) with pressures and tensions assigned through the public objects (random, zero, "
         "negative, constant) x grid sizes 1..12 x radii 0.5..6 cell radii. distinct = (cells, grid, radius class, assignment "
         "class), 40 % of them in tiny (1e-7..1e-3) or huge (1e3..1e6) length units; non-trivial = at least one non-empty bin"
-        " Added after the seeded rounds: reference pressures set, exact zeros, tiny / huge units, an earlier evaluation with another grid, numpy error states 'ignore' / 'warn'.")
+        " Added after the seeded rounds: reference pressures set, exact zeros, tiny / huge units, an earlier evaluation with another grid, numpy error states 'ignore' / 'warn'."
+        ' 60 % of the tissues solved first.')
 MIN_DECISIVE = {"quick": 100, "thorough": 1500}
 REQUIRED_COUNTERS = ["post:stress_tensor", "bins:checked", "linearity:checked", "isotropy:checked", "principal:checked"]
 TECHNIQUE = "runtime contract on stress_tensor / calculate_stress_tensor with metamorphic linearity and pure-pressure oracles"
